@@ -207,3 +207,266 @@ def handler_catches(h: ast.ExceptHandler, names: Iterable[str]) -> bool:
         return True
     ts = h.type.elts if isinstance(h.type, ast.Tuple) else [h.type]
     return any(norm(t).split(".")[-1] in set(names) for t in ts)
+
+
+# --------------------------------------------------------------------------------------------------------------------
+# third layer (rules z, aa-ac): query contexts and side-stored patterns
+# --------------------------------------------------------------------------------------------------------------------
+def attr_store_targets(st: ast.AST) -> list[ast.Attribute]:
+    """the `<base>.<attr>` targets a statement stores into (plain, chained, tuple, augmented, annotated-with-value)"""
+    tg: list[ast.AST] = []
+    if isinstance(st, ast.Assign):
+        tg = list(st.targets)
+    elif isinstance(st, ast.AugAssign):
+        tg = [st.target]
+    elif isinstance(st, ast.AnnAssign) and st.value is not None:
+        tg = [st.target]
+    out: list[ast.Attribute] = []
+    todo = list(tg)
+    while todo:
+        t = todo.pop()
+        if isinstance(t, (ast.Tuple, ast.List)):
+            todo.extend(t.elts)
+        elif isinstance(t, ast.Starred):
+            todo.append(t.value)
+        elif isinstance(t, ast.Attribute):
+            out.append(t)
+    return out
+
+
+def context_makers(cls_methods: dict[str, ast.FunctionDef], cls_name: str) -> set[str]:
+    """methods of the context class every `return` of which hands out an object made in the call: the class's constructor,
+    `self.<maker>(...)`, or a local bound only to such calls (fixpoint; independent of local names)"""
+    makers: set[str] = set()
+
+    def fresh(fn: ast.FunctionDef, e: Optional[ast.AST], depth: int = 0) -> bool:
+        if isinstance(e, ast.Call):
+            if isinstance(e.func, ast.Name) and e.func.id == cls_name:
+                return True
+            selfname = fn.args.args[0].arg if fn.args.args else None
+            return isinstance(e.func, ast.Attribute) and e.func.attr in makers and isinstance(e.func.value, ast.Name) and e.func.value.id == selfname
+        if isinstance(e, ast.Name) and depth < 3:
+            ds = local_defs(fn, e.id)
+            return bool(ds) and all(fresh(fn, d, depth + 1) for d in ds)
+        return False
+
+    changed = True
+    while changed:
+        changed = False
+        for m, fn in cls_methods.items():
+            if m in makers or m.startswith("__"):
+                continue
+            rets = [r for r in own_nodes(fn) if isinstance(r, ast.Return)]
+            if rets and all(fresh(fn, r.value) for r in rets):
+                makers.add(m)
+                changed = True
+    return makers
+
+
+def is_maker_call(e: Optional[ast.AST], makers: set[str], cls_name: str) -> bool:
+    if not isinstance(e, ast.Call):
+        return False
+    if isinstance(e.func, ast.Name):
+        return e.func.id == cls_name
+    return isinstance(e.func, ast.Attribute) and e.func.attr in makers
+
+
+def denotes_param(mod: Module, fn: ast.FunctionDef, g: CFG, at: ast.AST, name: str) -> Optional[str]:
+    """the parameter of fn whose entry value the local `name` holds when `at` is evaluated (directly, or through one
+    plain alias `name = <param>` made while the parameter still had its entry value), else None"""
+    params = set(params_of(fn))
+    vals = reaching_values(mod, fn, g, at, name)
+    if not vals:
+        return None
+    found: set[Optional[str]] = set()
+    for st in vals:
+        if st is None:
+            found.add(name if name in params else None)
+            continue
+        v = bound_value(st, name)
+        if isinstance(v, ast.Name) and v.id in params and reaching_values(mod, fn, g, st, v.id) == [None]:
+            found.add(v.id)
+        else:
+            found.add(None)
+    return found.pop() if len(found) == 1 else None
+
+
+# --------------------------------------------------------------------------------------------------------------------
+# restatements after the preserving-refactoring round (DESIGN §14.2): collections, tables, constants behind a test
+# --------------------------------------------------------------------------------------------------------------------
+MATERIALISERS = {"list", "tuple", "set", "frozenset", "sorted"}
+
+
+def materialised(e: Optional[ast.AST]) -> Optional[str]:
+    """why the value of `e` is a collection that is complete when the expression has been evaluated and can be iterated any
+    number of times (a display, a comprehension, a materialising constructor); None for anything else - in particular a
+    generator expression or the result of a generator function, which one iteration uses up"""
+    if isinstance(e, (ast.List, ast.Tuple, ast.Set, ast.Dict)):
+        return "display"
+    if isinstance(e, (ast.ListComp, ast.SetComp, ast.DictComp)):
+        return "comprehension (built completely where it stands, unlike a generator expression)"
+    if isinstance(e, ast.Call) and isinstance(e.func, ast.Name) and e.func.id in MATERIALISERS:
+        return e.func.id + "(...)"
+    return None
+
+
+def in_nested_scope(mod: Module, fn: ast.AST, node: ast.AST) -> bool:
+    for p in mod.parents(node):
+        if p is fn:
+            return False
+        if isinstance(p, (ast.FunctionDef, ast.AsyncFunctionDef, ast.Lambda, ast.ClassDef)):
+            return True
+    return False
+
+
+def values_reaching(mod: Module, fn: ast.FunctionDef, at: ast.AST, name: str) -> Optional[list[Optional[ast.expr]]]:
+    """the expressions the local `name` can hold when `at` is evaluated: one entry per binding that can be the last one
+    before `at` on some path (reaching definitions), None as an entry for a binding that is not a plain assignment (function
+    entry / parameter, loop target, with ..., augmented assignment).  Inside a nested scope (a lambda, an inner def) `at`
+    has no place in the function's flow: every assignment of the function to `name` then counts; the same when a binding of
+    `name` stands in a `try` body (the statement may raise before it has bound the name, which the flow graph does not
+    model).  None: `name` is never bound."""
+    stores = [n for n in own_nodes(fn, include_nested=True) if isinstance(n, ast.Name) and n.id == name and isinstance(n.ctx, ast.Store)]
+    if in_nested_scope(mod, fn, at) or any(try_bodies_around(mod, fn, n) for n in stores):
+        vals: list[Optional[ast.expr]] = list(local_defs(fn, name))
+        if any(isinstance(n, ast.Name) and n.id == name and isinstance(n.ctx, ast.Store) and not isinstance(mod.parent.get(id(n)), (ast.Assign, ast.AnnAssign, ast.NamedExpr))
+               for n in own_nodes(fn, include_nested=True)) or name in params_of(fn):  # type: ignore[arg-type]
+            vals.append(None)
+        return vals or None
+    g = CFG(fn)
+    sts = reaching_values(mod, fn, g, at, name)
+    if not sts:
+        return None
+    out: list[Optional[ast.expr]] = []
+    for st in sts:
+        v = bound_value(st, name) if st is not None else None
+        if v is None and isinstance(st, (ast.Assign, ast.Expr, ast.Return, ast.AnnAssign, ast.AugAssign)):
+            # bound by a walrus inside the statement
+            w = [x.value for x in ast.walk(st) if isinstance(x, ast.NamedExpr) and x.target.id == name]
+            v = w[-1] if len(w) == 1 and not isinstance(st, ast.AugAssign) else None
+        out.append(v)
+    return out
+
+
+def module_defs(mod: Module, name: str) -> list[ast.expr]:
+    """the values a name is bound to by assignments at the top level of the module"""
+    out: list[ast.expr] = []
+    for st in mod.tree.body:
+        if isinstance(st, ast.Assign) and any(isinstance(t, ast.Name) and t.id == name for t in st.targets):
+            out.append(st.value)
+        elif isinstance(st, ast.AnnAssign) and isinstance(st.target, ast.Name) and st.target.id == name and st.value is not None:
+            out.append(st.value)
+    return out
+
+
+def module_rebinds(mod: Module, name: str) -> bool:
+    """is the module-level `name` bound more than once, or written through (`NAME[k] = ..`, `global NAME`) anywhere in the module?"""
+    n_store = 0
+    for n in ast.walk(mod.tree):
+        if isinstance(n, ast.Name) and n.id == name and isinstance(n.ctx, (ast.Store, ast.Del)):
+            n_store += 1
+        elif isinstance(n, ast.Subscript) and isinstance(n.value, ast.Name) and n.value.id == name and isinstance(n.ctx, (ast.Store, ast.Del)):
+            return True
+        elif isinstance(n, ast.Global) and name in n.names:
+            return True
+    return n_store != 1
+
+
+def free_names(fn: ast.AST) -> set[str]:
+    """names the function reads and does not bind itself (parameters included in the bound ones)"""
+    bound = {a.arg for a in ast.walk(fn) if isinstance(a, ast.arg)}
+    loads: set[str] = set()
+    for n in own_nodes(fn, include_nested=True):
+        if isinstance(n, ast.Name):
+            if isinstance(n.ctx, ast.Load):
+                loads.add(n.id)
+            else:
+                bound.add(n.id)
+    return loads - bound
+
+
+def mapping_rows(e: ast.AST) -> list[tuple[ast.AST, ast.AST]]:
+    """(key, value) rows of an expression that writes a table out: a dict display, `dict(<rows>)`, or a list / tuple of pairs"""
+    if isinstance(e, ast.Dict):
+        return [(k, v) for k, v in zip(e.keys, e.values) if k is not None]
+    if isinstance(e, ast.Call) and isinstance(e.func, ast.Name) and e.func.id == "dict":
+        rows = [r for a in e.args for r in mapping_rows(a)]
+        rows += [(ast.Constant(value=k.arg), k.value) for k in e.keywords if k.arg]
+        return rows
+    if isinstance(e, (ast.List, ast.Tuple)) and e.elts and all(isinstance(x, ast.Tuple) and len(x.elts) == 2 for x in e.elts):
+        return [(x.elts[0], x.elts[1]) for x in e.elts]  # type: ignore[attr-defined]
+    return []
+
+
+def tables_of(mod: Module, fn: ast.FunctionDef) -> list[tuple[str, list[tuple[ast.AST, ast.AST]]]]:
+    """the tables a function can look things up in: the ones it writes out itself, and the module-level constants it reads
+    (a name the function does not bind, bound once at the top level of the module to a written-out table and never
+    written through).  [(where, rows)]"""
+    out: list[tuple[str, list[tuple[ast.AST, ast.AST]]]] = []
+    inner: set[int] = set()
+    for n in own_nodes(fn, include_nested=True):
+        if id(n) in inner:
+            continue
+        rows = mapping_rows(n)
+        if rows:
+            out.append(("local", rows))
+            inner.update(id(x) for x in ast.walk(n) if x is not n)
+    for name in sorted(free_names(fn)):
+        vals = module_defs(mod, name)
+        if len(vals) == 1 and not module_rebinds(mod, name):
+            rows = mapping_rows(vals[0])
+            if rows:
+                out.append((name, rows))
+    return out
+
+
+def method_applied_by(mod: Module, v: ast.AST) -> Optional[str]:
+    """`lambda x, y: x.m(y)`, or the name of a module-level `def f(x, y): return x.m(y)`  ->  m: the method of its first
+    argument that the callable applies"""
+    params: list[str] = []
+    body: Optional[ast.AST] = None
+    if isinstance(v, ast.Lambda):
+        params, body = [a.arg for a in v.args.args], v.body
+    elif isinstance(v, ast.Name) and mod.has(v.id) and isinstance(mod.get(v.id), ast.FunctionDef):
+        d = mod.get(v.id)
+        sts = [s for s in d.body if not (isinstance(s, ast.Expr) and isinstance(s.value, ast.Constant))]  # type: ignore[attr-defined]
+        if len(sts) == 1 and isinstance(sts[0], ast.Return):
+            params, body = params_of(d), sts[0].value  # type: ignore[arg-type]
+    if isinstance(body, ast.Call) and isinstance(body.func, ast.Attribute) and isinstance(body.func.value, ast.Name) and params and body.func.value.id == params[0]:
+        return body.func.attr
+    return None
+
+
+def constants_behind(mod: Module, fn: ast.FunctionDef, e: ast.AST, depth: int = 3) -> set:
+    """the constants the value of `e` is computed from: the ones written in it, in the defining expressions of the locals it
+    mentions (transitively), and in module-level constants it names (a name the function does not bind, bound once at the
+    top level of the module to a constant or a display of constants)"""
+    out: set = set()
+    free = free_names(fn)
+    for x in closure_nodes(fn, e, depth):
+        if isinstance(x, ast.Constant):
+            try:
+                out.add(x.value)
+            except TypeError:
+                pass
+        elif isinstance(x, ast.Name) and x.id in free:
+            vals = module_defs(mod, x.id)
+            if len(vals) == 1 and not module_rebinds(mod, x.id):
+                nodes = list(ast.walk(vals[0]))
+                if all(isinstance(y, (ast.Constant, ast.Tuple, ast.List, ast.Set, ast.Load)) or (isinstance(y, ast.Call) and isinstance(y.func, ast.Name) and y.func.id in ("frozenset", "set", "tuple"))
+                       or (isinstance(y, ast.Name) and y.id in ("frozenset", "set", "tuple")) for y in nodes):
+                    out.update(y.value for y in nodes if isinstance(y, ast.Constant))
+    return out
+
+
+def try_bodies_around(mod: Module, fn: ast.AST, node: ast.AST) -> list[ast.Try]:
+    """the try statements in whose BODY (not handler / else / finally) `node` stands, innermost first"""
+    out: list[ast.Try] = []
+    child = node
+    for p in mod.parents(node):
+        if p is fn:
+            break
+        if isinstance(p, ast.Try) and any(child is s for s in p.body):
+            out.append(p)
+        child = p
+    return out
